@@ -12,6 +12,13 @@ use std::time::{Duration, Instant};
 
 pub const DEFAULT_SEED: u64 = 20261003;
 
+/// Clauses checked in phases whose thread schedule is the operating system's, not the simulator's
+/// (C18: real-parallel hammer, contended first use in a fresh process). Their assertion holds for
+/// every schedule, so they cannot raise a false alarm; but a failure is a race that was *hit*, so
+/// the replay re-runs the recorded scenario up to REPLAY_ATTEMPTS times instead of once.
+pub const UNCONTROLLED: [&str; 3] = ["same-outcome-under-real-parallelism", "same-outcome-under-contended-first-use", "same-outcome-in-a-fresh-process"];
+pub const REPLAY_ATTEMPTS: usize = 40;
+
 pub fn verif_dir() -> String {
     std::env::var("VERIF_DIR").unwrap_or_else(|_| "/verif".to_string())
 }
@@ -317,6 +324,20 @@ pub fn replay_main(profiles: &[Profile], path: &str) -> i32 {
             return 2;
         }
     };
+    if UNCONTROLLED.contains(&rf.clause.as_str()) {
+        // force the fresh-process phase on and re-run until the race is hit again
+        std::env::set_var("VERIF_C18_FORCE_FRESH", "1");
+        for attempt in 1..=REPLAY_ATTEMPTS {
+            let (o, _) = execute(p, rf.tier, Tape::replay(rf.tape.clone()));
+            if let Some(v) = o.violations.iter().find(|v| v.property == rf.property && UNCONTROLLED.contains(&v.clause)) {
+                println!("replay: reproduced on attempt {} (schedule not simulator-controlled in this phase) {} / {}: {}", attempt, v.property, v.clause, v.detail);
+                println!("VIOLATION property={} replay={}", rf.property, path);
+                return 1;
+            }
+        }
+        println!("replay: the race recorded in {} was not hit again in {} attempts on the current tree", path, REPLAY_ATTEMPTS);
+        return 2;
+    }
     let (o1, _) = execute(p, rf.tier, Tape::replay(rf.tape.clone()));
     let (o2, _) = execute(p, rf.tier, Tape::replay(rf.tape.clone()));
     let hit1 = o1.violations.iter().find(|v| v.property == rf.property && v.clause == rf.clause);
@@ -613,12 +634,31 @@ pub fn check_main(profiles: &[Profile], id: &str, tier: Tier) -> i32 {
         println!("note: minimising run {} ({} choices)", index, tape0.len());
         let v0 = match out0.violations.iter().find(|v| v.property == property && v.clause == clause) {
             Some(v) => v.clone(),
+            None if UNCONTROLLED.contains(&clause.as_str()) => {
+                // observed by a worker; not hit again in the parent's single re-run
+                Violation {
+                    property: "C18",
+                    clause: UNCONTROLLED.iter().find(|c| **c == clause.as_str()).copied().unwrap_or("same-outcome-under-real-parallelism"),
+                    detail: detail.clone(),
+                }
+            }
             None => {
                 println!("HARNESS-ERROR: run {} did not reproduce {} / {} in the parent (nondeterminism)", index, property, clause);
                 exit_code = exit_code.max(2);
                 continue;
             }
         };
+        if UNCONTROLLED.contains(&clause.as_str()) {
+            // a race that was hit: no minimisation (every candidate would need many attempts); the
+            // violation is reported as observed, the replay file re-runs the scenario repeatedly
+            let path = write_replay(p, tier, seed, index, &tape0, &out0, &v0);
+            println!("VIOLATION property={} replay={}", property, path);
+            println!("  clause {} (seed {}, run {}; observed in a phase whose thread schedule is not simulator-controlled — `./check replay` re-runs it up to {} times): {}", clause, seed, index, REPLAY_ATTEMPTS, crate::libi::truncate(&v0.detail, 1500));
+            exit_code = exit_code.max(1);
+            violations_total += 1;
+            reported.insert((property, clause));
+            continue;
+        }
         let small = shrink(p, tier, tape0.clone(), &property, &clause, Duration::from_secs(25));
         let (out1, rec1) = execute(p, tier, Tape::replay(small.clone()));
         let (v1, out1, tape1) = match out1.violations.iter().find(|v| v.property == property && v.clause == clause) {
